@@ -251,8 +251,10 @@ def build_wire(case, lp):
             if wire_payload is None:
                 # recover the wire payload of the frame write_message produced (needed for the frame list)
                 raw = bytes(out.written)
-                f, rest = py_parse(raw[sum(len(py_encode(x)) for x in frames):])
-                assert rest == b"" and f["mask"] == mask
+                try:
+                    f, rest = py_parse(raw[sum(len(py_encode(x)) for x in frames):])
+                except Exception:     # a broken sender: keep going, the receiver and the model encoder will tell
+                    f = {"fin": True, "rsv": 4 if z else 0, "op": 1 if text else 2, "ext": 0, "mask": mask, "payload": b""}
                 frames.append(f)
                 wire_payload = f["payload"]
                 parts = [[pre0, wire_payload, mask, f["ext"]]]
@@ -432,6 +434,8 @@ def cfg_of(case, impl):
 
 
 def model_requests(case, impl):
+    if "harness_exc" in impl:
+        return []
     wire = bytes.fromhex(impl["wire"])
     fed = wire[:impl["fed"]]
     tbl = wire_table(impl["recv"]["calls"])
@@ -515,6 +519,8 @@ def model_result(case, replies):
 
 # ------------------------------------------------------------------------------------------- oracle
 def spec_requests(case, impl):
+    if "harness_exc" in impl:
+        return []
     msgs = [m for k, m in _unhex(impl["smsgs"]) if k == "msg"]
     return [line(ID, "expect", msgs)]
 
@@ -685,6 +691,8 @@ def stats(case, impl):
 
 
 def signature(case, impl, why):
+    if "harness_exc" in impl:
+        return "harness-escape/" + str(impl["harness_exc"]).split(":")[0]
     kind = "cut" if case.get("cut") is not None else "complete"
     inter = any(item.get("gaps") for item in case["script"] if item["t"] == "msg")
     what = "uncaught" if impl["recv"]["uncaught"] else "lost-or-wrong" if "delivered" in why else "closed"
